@@ -28,11 +28,15 @@ def check(ctx, rep, tier):
                  "rule and the military-time heuristic (located by role)")
     rep.describe("two-digit-year", "all productions that read a year group admitting two "
                  "digits map it to the same four-digit year for every reference year")
+    rep.describe("accepts-valid-dates", "a production that assembles day and month (and year) "
+                 "from written parts returns a value for every combination that is a real "
+                 "calendar date (evaluation of its path conditions over all combinations)")
     rep.describe("field-names", "a date/time field of a constructed value is never fed from a "
                  "group or attribute named after a different date/time field")
     rep.describe("month-names", "every English and German month name is accepted exactly by "
                  "groups that make the rule return that month's number")
     _noninterference(ctx, rep, eng)
+    _accepts_valid_dates(ctx, rep, eng)
     _two_digit(ctx, rep, eng)
     _field_names(ctx, rep, eng)
     _month_names(ctx, rep, eng)
@@ -106,6 +110,104 @@ def _noninterference(ctx, rep, eng):
         rep.add("non-interference", c, rule.where, bad is None,
                 bad or ("uses the reference time coherently" if uses_ts else "independent"))
     rep.count("result_values_examined", n, 200)
+
+
+def _accepts_valid_dates(ctx, rep, eng):
+    import datetime as _dt
+    import itertools
+    from .. import e4_order as e4
+    from ..e3_rules import _leaf_domain
+    from .relspec import leaves_of
+    from .common import grouped_runs as _gr
+    n_rules = 0
+    for (ri, name), runs in sorted(_gr(eng).items()):
+        rule = runs[0].rule
+        bad = None
+        checked = 0
+        relevant = False
+        for run in runs:
+            nn = []
+            for p in run.paths:
+                for o in _result_objs(p):
+                    if p.val.oid != o.oid:
+                        continue
+                    m, d, y = o.attrs.get("month"), o.attrs.get("day"), o.attrs.get("year")
+                    if not (isinstance(m, IntV) and isinstance(d, IntV)):
+                        continue
+                    if any(sym_mentions(v.sym, TS) for v in (m, d) + ((y,) if isinstance(y, IntV) else ())):
+                        continue
+                    if _copied_from_one(m, d, y):
+                        continue
+                    nn.append((p, y if isinstance(y, IntV) else None, m, d))
+            if not nn:
+                continue
+            relevant = True
+            # all paths of this run (incl. rejecting ones) share the leaves
+            for p, y, m, d in nn:
+                terms = [y.sym if y is not None else None, m.sym, d.sym]
+                leaves = set()
+                for t in terms:
+                    if t is not None:
+                        leaves_of(t, leaves)
+                paths = [q for q in run.paths if q.kind == "ret"]
+                for q in paths:
+                    for c, _ in q.conds:
+                        leaves_of(c, leaves)
+                order = sorted(leaves, key=repr)
+                doms = []
+                size = 1
+                ok_dom = True
+                for l in order:
+                    dm = _leaf_domain(eng.interp, p.st, l)
+                    if dm is None:
+                        ok_dom = False
+                        break
+                    doms.append(dm)
+                    size *= max(1, len(dm))
+                if not ok_dom or size > 300000:
+                    continue
+                try:
+                    f_terms = e4.compile_path([], terms, order)
+                    f_paths = [e4.compile_path(q.conds, [], order) for q in paths
+                               if isinstance(q.val, RefV)]
+                except Undecided:
+                    continue
+                for combo in itertools.product(*doms):
+                    a = list(combo)
+                    r = f_terms(a)
+                    if r is None:
+                        continue
+                    yy, mm, dd = r
+                    try:
+                        _dt.date(int(yy) if yy is not None else 2000, int(mm), int(dd))
+                    except (ValueError, TypeError, OverflowError):
+                        continue
+                    checked += 1
+                    if not any(fp(a) is not None for fp in f_paths):
+                        bad = bad or "the valid date {}-{}-{} is rejected".format(yy if yy is not None else "X", mm, dd)
+                        break
+                if bad:
+                    break
+            if bad:
+                break
+        if relevant and checked:
+            n_rules += 1
+            rep.add("accepts-valid-dates", rule_construct(rule, "valid dates accepted"), rule.where, bad is None,
+                    bad or "{} valid combinations".format(checked))
+    rep.count("date_assembling_rules", n_rules, 5)
+
+
+def _copied_from_one(m, d, y):
+    srcs = set()
+    for f, v in (("month", m), ("day", d), ("year", y)):
+        if not isinstance(v, IntV):
+            continue
+        s = v.sym
+        if isinstance(s, tuple) and len(s) == 3 and s[0] in ("attr", "dtfield") and s[2] == f:
+            srcs.add(s[1])
+        else:
+            return False
+    return len(srcs) == 1
 
 
 def _ts_only_rule(run):
